@@ -40,8 +40,12 @@ LEVEL = {
          "(converting back returns v) on top of the C11 characterisation.", "itoa is modelled as Spec.toDecimal and compared on every request."),
  "C11": ("Theorems C11_eq/C11_sound/C11_complete/C11_specials for every bit pattern of every width and every target of at most 128 bits, against exact integer arithmetic "
          "(exactInt, IsValue): Some i iff the exact value is the integer i inside the range (negative sign never into unsigned); NaN/infinity always None.", ""),
- "C12": ("Relative to the float formatter's text (passed in the request, re-rounded in Lean on every request): encoder by C01, specials by C09, converting back by toFloatFinite_back "
-         "(at most 17 digits, exponent text at most 6 bytes fit the 25-byte scratch buffer).", "ryu's shortest-ness/correctness is an assumed contract of an external crate, monitored not proved; str::parse modelled as exact RNE."),
+ "C12": ("Theorems C12_finite(_wide), C12_infallible_wide, C12_specials, C12_back(_wide), C12_back_inf, C12_value, relative to the explicit hypothesis RyuContractWide about the float "
+         "formatter's text (finite numeral with the float's sign, at most 34 written / 17 significant digits, small exponent, rounds to the float): the decimal is the exact encoding of that "
+         "text's (sign, digits, exponent) at the C07 width, fails only when it does not fit (None for the fallible conversions, never for the ones offered as From), specials map to ±inf and a "
+         "quiet payload-free NaN of the same sign, and converting back returns the identical bits.",
+         "ryu is an external crate: RyuContractWide is assumed, not proved; the harness passes ryu's text for the same float and the Lean oracle re-checks every clause of the contract on "
+         "every request (evidence: assumed_contract_broken). str::parse is modelled as exact RNE."),
  "C13": ("Theorems C13_sound, C13_overflow, C13_infinity, C13_nan, C13_some, C13_b32_total: a Some is the round-to-nearest-even float of the exact value with the decimal's sign, "
          "None on overflow, Some guaranteed for ≤17 significant digits at widths ≤160 bits, every Bitstring32 converts to f64; scratch-buffer arithmetic floatText_some_iff.",
          "Relative to the model of str::parse::<f32|f64> as exact rational RNE (Spec.rneDecSafe); compared with the real str::parse on every request incl. generated ties."),
@@ -69,7 +73,7 @@ def main():
         i = p["id"]
         text, note = LEVEL[i]
         n = len(thms.get(i, {}).get("theorems", []))
-        cat = "proof" if n > 0 and i != "C05" else "exploration"
+        cat = "proof" if n > 0 and i != "C05" else "exploration"   # C05: see its text — panics inside the codec are explored, not proved
         checks.append({
             "property_id": i,
             "quick_cmd": f"./check {i} quick",
